@@ -10,7 +10,7 @@ open-ended loops (`while a != b` in `pi`, the range reductions) take fuel and re
 namespace Arp
 
 /-- generous fuel for the inner `sqrt`/`rem` loops -/
-def innerFuel : Nat := 200000
+def innerFuel : Nat := 4000000
 
 def Flt.sqrtM (x : Flt) : Option Flt := x.sqrtFuel innerFuel
 def Flt.remM (x y : Flt) : Option Flt := x.remFuel innerFuel y
